@@ -26,6 +26,18 @@ CHECKS["C18"] = dict(
          "and POP3 PASS paths and the pre-authentication gate are tied by correspondence runs under a virtual clock.",
     note=TB + "Modelled not verified: password hashing (oracle pw_ok), the subprocess spawn, float clock values (runs use integers).",
     ref="6/C18")
+MBOX_NOTE = (TB + "Modelled not verified: Python's mailbox.MH and email packages, SQLite, asyncio (commands are atomic "
+             "steps; interleavings inside a command belong to C10), the response tokenizer of the harness. The model's ghost "
+             "view is tied to the real byte streams by the correspondence runs and by the replay oracle run on the "
+             "implementation's own output.")
+CHECKS["C01"] = dict(
+    technique="Coq invariant proof over all histories of a command-atomic world model + step-by-step differential correspondence",
+    text="Theorem: in every world reachable by any history (any number of sessions/mailboxes/commands/deliveries/polls) "
+         "every session's replayed view is legal, its queued notifications replay exactly to the server's list (FIFO), "
+         "flush points synchronise, numbers are accepted on a synced view, and no EXPUNGE is sent during the issuer's own "
+         "non-UID FETCH/STORE/SEARCH. The model is tied to the real Authenticated/Mailbox/IMAPUserServer objects by "
+         "comparing everything each session is sent, step by step, on generated multi-session histories.",
+    note=MBOX_NOTE, ref="6/C01")
 NOT_YET = {}
 
 props = [json.loads(l) for l in (V / "properties.jsonl").read_text().splitlines() if l.strip()]
